@@ -19,7 +19,7 @@ def load_catalogue():
     spec = importlib.util.spec_from_file_location("catalogue", os.path.join(VERIF, "mutants", "catalogue.py"))
     m = importlib.util.module_from_spec(spec)
     spec.loader.exec_module(m)
-    return m.M
+    return m.BENIGN if os.environ.get("CV_SELFTEST_BENIGN") else m.M
 
 
 def apply_edits(root, edits):
@@ -46,6 +46,9 @@ def run_check(prop, repo, seed, scratch_ev):
 def main(args, tier, seed):
     verify = "--verify-tests" in args
     allchecks = "--all-checks" in args
+    if "--benign" in args:
+        os.environ["CV_SELFTEST_BENIGN"] = "1"
+        allchecks = True
     names = [a for a in args if not a.startswith("--")]
     cat = load_catalogue()
     if names:
@@ -74,9 +77,7 @@ def main(args, tier, seed):
                 results.append((m["name"], "stale", {}))
                 continue
             if verify:
-                cmd = ["cargo", "test", "--offline", "--lib"]
-                if m.get("features"):
-                    cmd += ["--features", m["features"]]
+                cmd = ["cargo", "test", "--offline", "--lib"]   # the repository's baseline: default features
                 p = subprocess.run(cmd, cwd=repo, stdout=subprocess.PIPE, stderr=subprocess.STDOUT, text=True,
                                    env=dict(os.environ, CARGO_TARGET_DIR=os.path.join(root, "target")))
                 ok = p.returncode == 0 and "test result: ok" in p.stdout
@@ -106,6 +107,12 @@ def main(args, tier, seed):
             shutil.rmtree(os.path.join(bdir, d), ignore_errors=True)
     missed = [(n, p) for n, st, per in results if st == "ran" for p, (rc, nv) in per.items()
               if p in next(x for x in load_catalogue() if x["name"] == n)["expect"] and not (rc == 1 and nv > 0)]
+    if os.environ.get("CV_SELFTEST_BENIGN"):
+        alarms = [(n, p, rc) for n, st, per in results if st == "ran" for p, (rc, nv) in per.items() if rc != 0]
+        print("\n== benign refactorings: every check must stay silent ==")
+        for n, st, per in results:
+            print(f"  {n:40s} {st:10s} alarms: {[p for p, (rc, nv) in per.items() if rc != 0] or 'none'}")
+        return 1 if alarms else 0
     print("\n== selftest summary ==")
     for n, st, per in results:
         print(f"  {n:45s} {st:10s} " + " ".join(f"{p}:{'caught' if rc == 1 and nv else 'missed' if rc == 0 else 'rc%d' % rc}" for p, (rc, nv) in per.items()))
